@@ -14,7 +14,7 @@ LEAN_MODULES = ["Props.C20"]
 RULE = (
     "case = (register type with 0-5 user-defined properties over mixed field kinds, names chosen to sort before / "
     "between / after the framework's own property names (in about a third of the cases a caller first edits IN PLACE the lists that custom_properties handed out earlier - remove / append / clear / reverse / sort / overwrite - for the type asked for or for every type: what the library hands out is the caller's to change and leaves nothing behind); a subclass, a second subclass that adds a property of its own and overrides the first inherited one, and an unrelated type (in four cases out of ten the views of the other types are asked for first); a file with 0-10 "
-    "registers of the type interleaved with other types and free-text lines; None in any position; in four cases out of ten the file held 1-3 MORE registers earlier - fresh ones or value-for-value copies of registers that stay - which were taken out again with RegisterData.remove after the view / of_type / get_registers_of_type had been asked: the view follows the registers the file holds NOW, whatever was there or was asked before). Observed on the "
+    "registers of the type interleaved with other types and free-text lines; None in any position; in four cases out of ten the file held 1-3 MORE registers earlier - fresh ones or value-for-value copies of registers that stay - which were taken out again with RegisterData.remove after the view / of_type / get_registers_of_type had been asked: the view follows the registers the file holds NOW, whatever was there or was asked before; in four cases out of ten the file object belongs to a DERIVED file class whose REGISTERS / VERSIONS tables list some of the types - the types carry identifiers, several of them the same one, as the layouts of one record in different versions do - and the class is switched with set_version, or its REGISTERS re-assigned, after the object was built and between the views: the view is taken from the registers THE FILE OBJECT holds and from the type asked for, whatever the class's tables list at that moment). Observed on the "
     "real code: Register.custom_properties, list(df.columns), df.shape[0], every cell (null-aware, numbers as "
     "doubles), and - after overwriting every cell of the frame - whether the registers' data is unchanged. Judged by "
     "Spec.C20.holds (columns = sorted user properties without the framework's; one row per register of the type in "
@@ -46,15 +46,23 @@ def build(case):
     def mkprop(i):
         return property(lambda self: self.data[i] if i < len(self.data) else None)
 
-    ns = {"__slots__": []}
+    tab = case.get("tables") or {}
+    ids = tab.get("ids") or {}
+
+    def ident(i):
+        # the identifier a type is declared with (None: inherited / the framework's default)
+        v = ids.get(str(i))
+        return {} if v is None else {"IDENTIFIER": v, "IDENTIFIER_DIGITS": len(v)}
+
+    ns = {"__slots__": [], **ident(0)}
     for name, idx in case["props"]:
         ns[codec.dec_str(name)] = mkprop(idx)
     K0 = type("K0", (Register,), ns)
-    K1 = type("K1", (K0,), {"__slots__": []})
-    K2 = type("K2", (Register,), {"__slots__": [], "other": mkprop(0)})
+    K1 = type("K1", (K0,), {"__slots__": [], **ident(1)})
+    K2 = type("K2", (Register,), {"__slots__": [], "other": mkprop(0), **ident(2)})
     # K4 adds a property and OVERRIDES the first inherited one (a newer layout of the same record keeps the
     # value somewhere else): in every view a register shows what ITS OWN property gives
-    k4 = {"__slots__": [], OWN: mkprop(1)}
+    k4 = {"__slots__": [], OWN: mkprop(1), **ident(4)}
     if case["props"]:
         k4[codec.dec_str(case["props"][0][0])] = mkprop(OVERRIDE_INDEX)
     K4 = type("K4", (K0,), k4)
@@ -92,7 +100,17 @@ def build(case):
             else:
                 data.add_before(regs[-1], r)  # before the register that followed the previous insertion
             prev = r
-    f = RegisterFile(data=data)
+    if tab:
+        # a file class of the caller's with its own tables (lists of the types above by number); the object is
+        # built while the version tab["first"] is selected
+        def lst(idx):
+            return [classes[i] for i in idx if classes[i] is not None]
+
+        FileK = type("FileK", (RegisterFile,), {"REGISTERS": lst(tab["registers"]), "VERSIONS": {k: lst(v) for k, v in tab["versions"]}})
+        select(FileK, tab.get("first"), classes)
+        f = FileK(data=data)
+    else:
+        f = RegisterFile(data=data)
     if extra:
         # the earlier state of the file was looked at (or not), then the extra registers were removed one by
         # one - the registers that stay, and their order, are exactly case["regs"]
@@ -106,6 +124,16 @@ def build(case):
                 ask(f, t, asked)
             data.remove(r)
     return classes, f, final
+
+
+def select(fc, how, classes):
+    """the class's tables changed through the public ways: set_version(name), or REGISTERS assigned"""
+    if how is None:
+        return
+    if isinstance(how, str):
+        fc.set_version(how)
+    else:
+        fc.REGISTERS = [classes[i] for i in how if classes[i] is not None]
 
 
 def ask(f, t, how):
@@ -167,6 +195,10 @@ def run_impl(case):
             for r in regs:
                 if any(type(r) is classes[i] for i in who):
                     edit_in_place(r.custom_properties, case["edit"]["how"])
+        sel = list((case.get("tables") or {}).get("select") or []) + [None] * 3
+        # the file class goes to another version (an older / newer file is about to be read with it) before the
+        # object built above is viewed, and again between the views: the object's registers are what is shown
+        select(type(f), sel[0], classes)
         before = [[codec.enc_val(v) for v in (r.data if isinstance(r.data, list) else [r.data])] for r in regs]
         probe = classes[case["type"]]() if case["type"] != 3 else None
         cp = [codec.enc_str(n) for n in (probe.custom_properties if probe is not None else [])]
@@ -194,7 +226,9 @@ def run_impl(case):
         # the view asked for AGAIN from the same file: after the first frame was edited, and after the
         # registers of the type exchanged their values in place (first <-> last); each view must show
         # what the registers hold at that moment
+        select(type(f), sel[1], classes)
         out["second_view"] = view_vs_registers(f, t)
+        select(type(f), sel[2], classes)
         mine = [r for r in regs if isinstance(r, t) and isinstance(r.data, list)] if isinstance(t, type) else []
         if len(mine) >= 2:
             mine[0].data, mine[-1].data = mine[-1].data, mine[0].data
@@ -309,6 +343,8 @@ def features(case, obs):
         f.append(f"returned_list_edited={case['edit']['how']}/{case['edit']['who']}")
     if case.get("gone"):
         f.append(f"registers_removed_earlier={len(case['gone']['regs'])}/asked={case['gone'].get('asked')}")
+    if case.get("tables"):
+        f.append(f"file_class_tables/select={sum(1 for x in case['tables'].get('select', []) if x is not None)}")
     if isinstance(obs, dict) and "nrows" in obs:
         f.append("empty_view" if obs["nrows"] == 0 else "non_empty_view")
     return f
@@ -381,7 +417,33 @@ def random_case(rng):
         case["gone"] = {"regs": extra, "asked": rng.choice(["view", "view", "of_type", "getter", "all_types", "none"]), "order": rng.choice(["forwards", "backwards"]), "again": rng.random() < 0.5}
     if rng.random() < 0.35:
         case["edit"] = {"how": rng.choice(EDITS), "who": rng.choice(["type", "type", "all"])}
+    # a separate stream for the file-class dimension: the draws above stay what they were
+    r2 = random.Random("tables:" + json.dumps(case, sort_keys=True))
+    if r2.random() < 0.4:
+        case["tables"] = random_tables(r2)
     return case
+
+
+VERSION_NAMES = ["v1", "v2", "v3"]
+
+
+def random_tables(r2):
+    """a derived file class: identifiers of the types, REGISTERS, VERSIONS, and what is selected when"""
+    idpool = ["PL", "PL", "XX", "", None]
+    ids = {"0": r2.choice(["PL", "PL", ""]), "1": r2.choice([None, None, "PL", "XX"]), "2": r2.choice(idpool), "4": r2.choice([None, None, "PL", "XX"])}
+
+    def table():
+        return r2.sample([0, 1, 2, 4], r2.randrange(1, 4))
+
+    names = VERSION_NAMES[: r2.randrange(2, 4)]
+    versions = [[n, table()] for n in names]
+
+    def sel(p):
+        if r2.random() >= p:
+            return None
+        return table() if r2.random() < 0.2 else r2.choice(names + ["v9"])
+
+    return {"ids": ids, "registers": table(), "versions": versions, "first": sel(0.5), "select": [sel(0.8), sel(0.4), sel(0.4)]}
 
 
 def corpus_cases():
@@ -432,6 +494,17 @@ def shrinks(case):
         yield {**case, "props": p[:i] + p[i + 1 :]}
     if case.get("warm"):
         yield {**case, "warm": False}
+    tb = case.get("tables")
+    if tb:
+        yield {k: v for k, v in case.items() if k != "tables"}
+        if tb.get("first") is not None:
+            yield {**case, "tables": {**tb, "first": None}}
+        for i, x in enumerate(tb.get("select", [])):
+            if x is not None:
+                yield {**case, "tables": {**tb, "select": [None if j == i else y for j, y in enumerate(tb["select"])]}}
+        for k in tb["ids"]:
+            if tb["ids"][k] is not None and k != "0":
+                yield {**case, "tables": {**tb, "ids": {**tb["ids"], k: None}}}
     if case.get("edit"):
         yield {k: v for k, v in case.items() if k != "edit"}
         if case["edit"]["who"] == "all":
